@@ -8,13 +8,15 @@ if ! git -C /repo diff --quiet; then echo "/repo has uncommitted changes"; exit 
 missed=0; total=0
 for d in seeded/*${1}*/; do
   id=$(basename "$d")
-  prop=$(python3 -c "import json;print(json.load(open('$d/meta.json'))['property'])" 2>/dev/null)
+  prop=$(python3 -c "import json;m=json.load(open('$d/meta.json'));print(m.get('regress_check',m['property']))" 2>/dev/null)
+  own=$(python3 -c "import json;print(json.load(open('$d/meta.json'))['property'])" 2>/dev/null)
   [ -z "$prop" ] && continue
   git -C /repo apply "/verif/$d/patch.diff" || { echo "$id: patch does not apply"; continue; }
   out=$(VERIF_SEED=${VERIF_SEED:-1} ./check "$prop" quick --evidence /verif/tmp/mutant_ev.json 2>&1); rc=$?
   git -C /repo checkout -- . ; git -C /repo clean -fdq -- src tests examples 2>/dev/null
   total=$((total+1))
   if [ $rc -eq 1 ] && echo "$out" | grep -q "^VIOLATION property=$prop"; then
+    [ "$prop" != "$own" ] && echo -n "(not by its own property's check $own, see meta.json) "
     echo "CAUGHT  $id by $prop: $(echo "$out" | grep -m1 'violation:' | cut -c1-140)"
   elif [ $rc -eq 0 ]; then
     echo "MISSED  $id ($prop exit 0)"; missed=$((missed+1))
